@@ -2,6 +2,7 @@ CONSTANTS
   Slots = {"s1", "s2"}
   Folders = {"d", "f1"}
   Contents = {"c1", "c2"}
+  Att = {"s2"}
   MaxOps = 4
   Deviations = {}
   EmitBehaviours = FALSE
